@@ -69,7 +69,7 @@ TECHNIQUE = "Lean 4 proof (list-sum algebra over a commutative ring, decide on w
 MODEL_VARIANT = "code"
 FINDING_KEY = "fmm-segment-space-point-maps"
 TOL = 1e-11
-QUICK_BUDGET_S = float(os.environ.get("C17_QUICK_BUDGET_S", "170"))  # quick tier: optional oracle items (second family, dual test space, second potential) start only
+QUICK_BUDGET_S = float(os.environ.get("C17_QUICK_BUDGET_S", "195"))  # quick tier: optional oracle items (second family, dual test space, second potential) start only
 #                       while the run is younger than this; the Laplace single layer whole/segment/two-grid cases and
 #                       the single-layer potential always run
 
@@ -305,9 +305,11 @@ def correspondence(ctx):
         if ctx.thorough:
             cfgs = _space_configs(api, grid, ctx, True)
         elif gname == "octa":
-            cfgs = _space_configs(api, grid, ctx, False, bary=["DUAL0", "P1-bary"][ctx.seed % 2])
+            # quick: DP0 / P1 whole + segment always; every third seed one barycentric kind (costly JIT)
+            cfgs = _space_configs(api, grid, ctx, False,
+                                  bary=[None, "DUAL0", None, None, "P1-bary", None][ctx.seed % 6])
         else:
-            cfgs = _space_configs(api, grid, ctx, False, only=("P1-whole", "P1-segment-bd", "DP0-segment"))
+            cfgs = _space_configs(api, grid, ctx, False, only=("P1-segment-bd", "DP0-segment"))
         for label, sp in cfgs:
             for order in (orders if gname != "cube2" else orders[:1]):
                 lp, w = rule(order)
@@ -818,10 +820,8 @@ def oracle(ctx, deep=False, only=None):
         gA = _mkgrid(api, grids["cube1"] if not deep else grids["cube2"])
         gB = _mkgrid(api, grids["octa"], shift=(0.4, 0.3, 2.6), scale=0.7)
         gC = _mkgrid(api, grids["screen"], rng=ctx.rng)
-        for family in fsel:
+        def run_family(family):
             f = fam[family]
-            if family != "lap_sl" and not budget_ok("family " + family):
-                continue
             ctx.log(f"oracle: family {family}")
             compare(family, f, gA, gA, "whole", "same")
             compare(family, f, gA, gA, "segment", "same")
@@ -829,7 +829,6 @@ def oracle(ctx, deep=False, only=None):
                 compare(family, f, gA, gB, "whole", "two-grids")
             if deep:
                 compare(family, f, gA, gA, "segment-domain", "same")
-            if deep:
                 compare(family, f, gB, gA, "segment", "two-grids")
                 compare(family, f, gC, gC, "whole", "open-screen")
                 compare(family, f, gC, gC, "segment", "open-screen")
@@ -839,6 +838,20 @@ def oracle(ctx, deep=False, only=None):
                 compare(family, f, gA if not deep else gB, gA if not deep else gB, "bary-test", "same")
             if deep:
                 compare(family, f, gB, gB, "bary", "same")
+
+        def run_potential(name):
+            p = pots[name]
+            ctx.log(f"oracle: potential {name}")
+            compare_potential(name, p, gA, "whole", "same")
+            compare_potential(name, p, gA, "segment", "same")
+            if deep:
+                compare_potential(name, p, gC, "segment", "open-screen")
+                compare_potential(name, p, gB, "bary", "same")
+
+        # 1. always: Laplace single layer (whole grid, segment, two grids), its sparse near-field configuration,
+        #    the single-layer potential
+        first = "lap_sl" if "lap_sl" in fsel else fsel[0]
+        run_family(first)
         # configurations of the near field / evaluator (the FMM interface cache does not key on them: clear it)
         configs = [("near_field_representation", "sparse")]
         if deep:
@@ -854,16 +867,7 @@ def oracle(ctx, deep=False, only=None):
             finally:
                 setattr(api.GLOBAL_PARAMETERS.fmm, attr, old_val)
                 fmmstub.clear_caches()
-        for name in psel:
-            p = pots[name]
-            if name != "pot_lap_sl" and not budget_ok("potential " + name):
-                continue
-            ctx.log(f"oracle: potential {name}")
-            compare_potential(name, p, gA, "whole", "same")
-            compare_potential(name, p, gA, "segment", "same")
-            if deep:
-                compare_potential(name, p, gC, "segment", "open-screen")
-                compare_potential(name, p, gB, "bary", "same")
+        run_potential(psel[0])
         ctx.log("oracle: neighbour lists, reference vectors")
         # near-field neighbour lists vs vertex adjacency on the oracle grids (the hypothesis of the theorem)
         for g in (gA, gB, gC):
@@ -877,10 +881,17 @@ def oracle(ctx, deep=False, only=None):
                     res.counterexample("near-field-neighbours-not-adjacent-pairs", f"element_neighbors of element {a} is "
                                        f"{lst}, elements sharing a vertex are {ref}", element=a)
                     break
-        if budget_ok("recorded reference vector fmm_laplace_single", QUICK_BUDGET_S + 30):
+        if budget_ok("recorded reference vector fmm_laplace_single"):
             _reference_vectors(ctx, api, res, deep, stats)
         else:
             res.stats["reference_vectors"] = "skipped in this quick run (time budget); run by the thorough tier"
+        # 2. the other families / potentials (quick tier: one by seed, only while within the time budget)
+        for family in fsel:
+            if family != first and budget_ok("family " + family):
+                run_family(family)
+        for name in psel[1:]:
+            if budget_ok("potential " + name):
+                run_potential(name)
         fmmstub.clear_caches()
     res.stats["oracle_skipped_for_time_budget"] = skipped_for_time
     res.stats.update({"oracle_" + k: v for k, v in stats.items()})
@@ -988,7 +999,7 @@ def _reference_vectors(ctx, api, res, deep, stats):
     res.stats["reference_vectors_missing"] = missing
     res.stats["reference_vectors_worst_ratio_vs_rtol_2e-3"] = worst
     if not deep:
-        res.stats["reference_vectors_note"] = ("quick tier reproduces fmm_laplace_single only; the thorough tier runs all 25 "
+        res.stats["reference_vectors_note"] = ("quick tier reproduces fmm_laplace_single only; the thorough tier runs all 24 "
                                                "recorded vectors of test/validation/fmm/test_fmm.py (none needs gmsh: the "
                                                "grids are shipped as fmm_grid*.msh); the regular_sphere based FMM tests have no "
                                                "recorded data and are covered by the generic oracle")
